@@ -115,6 +115,9 @@ pub fn worker_main(args: &[String]) -> i32 {
             let _ = writeln!(o, "@ {idx}");
             let _ = o.flush();
         }
+        // (safety net: nothing of an earlier case is left parked)
+        crate::ctl::hold_stragglers(false);
+        crate::ctl::drain_stragglers();
         let case = engines::gen_case(&prop, seed, idx, tier);
         if let Some(c) = case.ops.iter().find_map(|o| match o {
             crate::model::Op::Run { cfg, .. } => Some(cfg.console),
